@@ -139,3 +139,93 @@ Print Assumptions C16_harness_if_nest.
 Theorem C16_checker_nest_is_nest_if : forall d, Molt.Check.C16.nest 1 d false = nest_if (Z.to_nat d).
 Proof. exact checker_nest_if. Qed.
 Print Assumptions C16_checker_nest_is_nest_if.
+
+(* ---- procedure recursion, mutual recursion and `for` nests (Proofs/DepthFacts2.v) ---- *)
+From Molt Require Import Proofs.DepthFacts2.
+
+(* the checker's recursive procedure `down k` needs k+3 levels (the top-level script, k+1 procedure
+   bodies, the `if` body at the bottom): with limit N it succeeds iff k+3 <= N; otherwise it
+   fails with the catchable error, every procedure frame is popped, the level is back at 0 *)
+Theorem C16_down_exact : forall U (N : N) (k : Z) (fuel : nat) st,
+  uni_ok U ->
+  i_levels st = 0 -> i_limit st = N -> i_scopes st <> [] ->
+  counting_natives st ->
+  assoc_get (lit "down") (i_cmds st) = Some down_proc ->
+  (0 <= k <= i64_max)%Z -> (Z.to_nat k + 3 <= fuel)%nat ->
+  (Z.to_N k + 3 <= N ->
+     eval U fuel st (lit "down " ++ show_Z k)
+     = (set_trace st (deep_call :: i_trace st), Ok (VStr (lit "ok"))))
+  /\
+  (N < Z.to_N k + 3 -> errvars_ok (i_scopes st) ->
+     exists st' e,
+       eval U fuel st (lit "down " ++ show_Z k) = (st', Err e)
+       /\ x_code e = CError /\ x_value e = VStr too_many_nested
+       /\ i_levels st' = 0 /\ i_limit st' = N /\ i_cmds st' = i_cmds st
+       /\ i_trace st' = i_trace st
+       /\ length (i_scopes st') = length (i_scopes st) /\ errvars_ok (i_scopes st')).
+Proof. exact DepthFacts2.C16_down_exact. Qed.
+Print Assumptions C16_down_exact.
+
+(* mutual recursion ping/pong: 2k+3 levels *)
+Theorem C16_ping_exact : forall U (N : N) (k : Z) (fuel : nat) st,
+  uni_ok U ->
+  i_levels st = 0 -> i_limit st = N -> i_scopes st <> [] ->
+  counting_natives st ->
+  assoc_get (lit "ping") (i_cmds st) = Some ping_proc ->
+  assoc_get (lit "pong") (i_cmds st) = Some pong_proc ->
+  (0 <= k <= i64_max)%Z -> (2 * Z.to_nat k + 3 <= fuel)%nat ->
+  (2 * Z.to_N k + 3 <= N ->
+     eval U fuel st (lit "ping " ++ show_Z k)
+     = (set_trace st (deep_call :: i_trace st), Ok (VStr (lit "ok"))))
+  /\
+  (N < 2 * Z.to_N k + 3 -> errvars_ok (i_scopes st) ->
+     exists st' e,
+       eval U fuel st (lit "ping " ++ show_Z k) = (st', Err e)
+       /\ x_code e = CError /\ x_value e = VStr too_many_nested
+       /\ i_levels st' = 0 /\ i_limit st' = N /\ i_cmds st' = i_cmds st
+       /\ i_trace st' = i_trace st
+       /\ length (i_scopes st') = length (i_scopes st) /\ errvars_ok (i_scopes st')).
+Proof. exact DepthFacts2.C16_ping_exact. Qed.
+Print Assumptions C16_ping_exact.
+
+(* `for` bodies count one level each, like the other loop bodies *)
+Theorem C16_for_nest_exact : forall U (N : N) (d fuel : nat) st,
+  uni_names_ok U ->
+  i_levels st = 0 -> i_limit st = N ->
+  for_natives st -> Ready (i_scopes st) ->
+  (d + 1 <= fuel)%nat ->
+  exists st' r,
+    eval U fuel st (nest_for d) = (st', r)
+    /\ i_levels st' = 0 /\ i_limit st' = N /\ i_cmds st' = i_cmds st
+    /\ Ready (i_scopes st')
+    /\ (N.of_nat d + 1 <= N ->
+          r = Ok (val_for d) /\ i_trace st' = deep_call :: i_trace st)
+    /\ (N < N.of_nat d + 1 ->
+          (exists e, r = Err e /\ x_code e = CError /\ x_value e = VStr too_many_nested)
+          /\ i_trace st' = i_trace st).
+Proof. exact DepthFacts2.C16_for_nest_exact. Qed.
+Print Assumptions C16_for_nest_exact.
+
+(* on the interpreter state the checker builds (procedures defined by its own text), no side
+   hypotheses; the global scope is the current one again on both paths *)
+Theorem C16_harness_down : forall (N : N) (k : Z) (fuel : nat),
+  (0 <= k <= i64_max)%Z -> (Z.to_nat k + 3 <= fuel)%nat ->
+  (Z.to_N k + 3 <= N ->
+     exists st',
+       eval std_uni fuel (checker_state N) (lit "down " ++ show_Z k) = (st', Ok (VStr (lit "ok")))
+       /\ i_levels st' = 0 /\ i_trace st' = [deep_call] /\ sc_current (i_scopes st') = 0%nat)
+  /\
+  (N < Z.to_N k + 3 ->
+     exists st' e,
+       eval std_uni fuel (checker_state N) (lit "down " ++ show_Z k) = (st', Err e)
+       /\ x_code e = CError /\ x_value e = VStr too_many_nested
+       /\ i_levels st' = 0 /\ i_limit st' = N /\ i_trace st' = []
+       /\ sc_current (i_scopes st') = 0%nat).
+Proof. exact DepthFacts2.C16_harness_down. Qed.
+Print Assumptions C16_harness_down.
+
+Theorem C16_checker_down_script : forall target ce,
+  Molt.Check.C16.script_for 4 target ce
+  = (lit "down " ++ show_Z (Z.max (target - 3) 0), (Z.max (target - 3) 0 + 3)%Z).
+Proof. exact checker_script_down. Qed.
+Print Assumptions C16_checker_down_script.
